@@ -47,6 +47,14 @@ def run(run_):
     for s in (out.get("unstable") or [])[:3]:
         run_.violation("StringToNote(%r) gives a different answer when evaluated again after the other strings of the sweep: the answer may depend on the "
                        "string only" % s_of(s), {"call": "config.StringToNote (twice, other strings in between)", "input_bytes": s, "input": s_of(s)})
+    cold = [n for n in range(128) if n < len(out.get("octave_cold") or []) and n < len(out["octave"]) and
+            (out["octave_cold"][n] != out["octave"][n] or (out.get("pitch_cold") or out["pitch"])[n] != out["pitch"][n])]
+    for n in cold[:3]:
+        run_.violation("NoteToOctave/NoteToPitch(%d) = %r/%r when asked first in a fresh process (octaves before pitches, before any other call of the "
+                       "package), but %r/%r after the sweep: the name of a number may depend on the number only (%d numbers differ)" % (
+                           n, out["octave_cold"][n], s_of(out["pitch_cold"][n]), out["octave"][n], s_of(out["pitch"][n]), len(cold)),
+                       {"call": "config.NoteToOctave / NoteToPitch as the first calls of a fresh process", "input": n,
+                        "implementation_first": [out["octave_cold"][n], out["pitch_cold"][n]], "implementation_later": [out["octave"][n], out["pitch"][n]]})
     for c in (out.get("concurrent") or [])[:3]:
         fmt = lambda v: "rejected" if v == -1 else ("a panic" if v == -2 else str(v))
         run_.violation("StringToNote(%r) = %s while 15 other goroutines convert other strings, but %s when called alone: the answer may depend on the "
